@@ -266,13 +266,37 @@ def run(case, st):
             # before the files are read) and the one of the unit tests (files first)
             order = 'client' if common.case_hash(case)[1] % 3 else 'files-first'
             st.feature('call-order', order)
+            # a third of the cases read every option back between the layers (a program may look at its configuration at any time;
+            # what it sees later must still be the current values)
+            peek = common.case_hash(case)[2] % 3 == 0
+            st.feature('read-back-between-layers', peek)
+
+            def read_files():
+                if peek and len(paths) > 1:
+                    for p_ in paths:
+                        cfg.read(p_)
+                        peek_all()
+                else:
+                    cfg.read(files_arg)
+
+            def peek_all():
+                for sec_, key_, kind_, flags_ in catalogue():
+                    try:
+                        cfg[sec_][key_]
+                    except Exception:
+                        pass
+                st.counters['intermediate_read_backs'] += 1
+            if peek:
+                peek_all()
             if order == 'files-first' and paths:
-                cfg.read(files_arg)
+                read_files()
             parser = ArgumentParser('plasTeX')
             cfg.registerArgparse(parser)
             data = vars(parser.parse_args(argv))
             if order == 'client' and paths:
-                cfg.read(files_arg)
+                read_files()
+            if peek:
+                peek_all()
             cfg.updateFromDict(data)
         except common.CaseTimeout:
             raise
